@@ -30,7 +30,7 @@ func (c04) Describe() engine.Info {
 	return engine.Info{
 		Rule: "scenario = IE x IF x IME start state + sequence of 2..8 items over {EI, DI, RETI (prepared stack), NOP, INC r, LD r,n, LDH (IF),A, LDH (IE),A, PUSH/POP, CALL, LD (HL),r, ADD HL,rr, JR cc} followed by NOPs, with interrupt lines (all five) raised at sampled and boundary-adjacent cycle offsets; class sweep enumerates all 32x32x2 IE x IF x IME combinations at a boundary. Handlers are NOP; RETI. " +
 			"Oracle: reference SM83 + interrupt controller in lock step: dispatch decision at every boundary, 5-cycle length, vector by priority, IME cleared, exactly that IF bit cleared, IE untouched, pushed return address, SP-2; EI delayed by one instruction, DI and RETI immediate. Signature = (what happened at the boundary, opcode before it, line rose mid-instruction, EI distance)." +
-			" Class stack-on-ie: dispatch with SP=0000/0001 (the push lands on IE); class sequence-dma: OAM DMA transfers in flight while interrupts are dispatched; the pushes are also checked on the bus (hook H4).",
+			" Class stack-on-ie: dispatch with SP=0000/0001 (the push lands on IE); class sequence-dma: OAM DMA transfers in flight while interrupts are dispatched; the pushes are also checked on the bus (hook H4). Sequences contain CB-prefixed register instructions (one instruction for the purposes of the EI delay).",
 		Assumptions: []string{
 			"if the pending set changes during the five dispatch cycles the vector may correspond to the set at the boundary or at the end of the dispatch (both accepted)",
 			"HALT is excluded here (C05); HALT directly after EI is never generated (hardware corner outside the statement)",
